@@ -25,7 +25,7 @@ import (
 // provider itself and restores the package defaults only when the case is over
 // (cases run one after the other in a process; run() restores before and after).
 
-func buildSUT(spec vkit.ProviderSpec, store *vkit.Store) (*vkit.SUT, error) {
+func buildSUT(spec vkit.ProviderSpec, store *vkit.Store, wrap ...func(op.Storage) op.Storage) (*vkit.SUT, error) {
 	cfg := &op.Config{
 		DefaultLogoutRedirectURI: spec.DefaultLogoutURI,
 		CodeMethodS256:           spec.S256,
@@ -113,7 +113,11 @@ func buildSUT(spec vkit.ProviderSpec, store *vkit.Store) (*vkit.SUT, error) {
 	default:
 		issuer = op.StaticIssuer(spec.Issuer)
 	}
-	p, err := op.NewProvider(cfg, store.Shaped(spec.Caps), issuer, opts...)
+	var storage op.Storage = store.Shaped(spec.Caps)
+	for _, w := range wrap {
+		storage = w(storage) // pair cases: the same capabilities behind a gate the harness owns
+	}
+	p, err := op.NewProvider(cfg, storage, issuer, opts...)
 	if err != nil {
 		return nil, err
 	}
@@ -158,6 +162,9 @@ type ua struct {
 	host string
 	fwd  []string
 	via  string // how authorization requests travel: "" / get = GET with a query, post = POST with a form body
+	// firstDoc: the answer to a discovery request the harness has already obtained under a generated interleaving with
+	// another provider (pair cases); judgeView judges THIS document instead of fetching one
+	firstDoc *vkit.Resp
 }
 
 func (a *ua) do(method, target string, form url.Values, hdr http.Header) *vkit.Resp {
